@@ -23,6 +23,11 @@ META = dict(
                'photutils.segmentation.catalog:SourceCatalog.minval_index',
                'photutils.segmentation.catalog:SourceCatalog.maxval_index',
                'photutils.segmentation.catalog:SourceCatalog.moments',
+               'photutils.segmentation.catalog:SourceCatalog.moments_central',
+               'photutils.segmentation.catalog:SourceCatalog._covariance',
+               'photutils.segmentation.catalog:SourceCatalog.covariance_eigvals',
+               'photutils.segmentation.catalog:SourceCatalog.orientation',
+               'photutils.utils._moments:_moments_central',
                'photutils.segmentation.catalog:SourceCatalog.cutout_centroid',
                'photutils.segmentation.catalog:SourceCatalog.centroid',
                'photutils.segmentation.catalog:SourceCatalog.background_sum',
@@ -35,14 +40,20 @@ META = dict(
             'edge-hugging, non-consecutive labels {2,5,9}, disconnected '
             'label); optional second symbolic array as convolved data; '
             'optional detection catalog; label renumbering and row '
-            'reordering compared by solver equality'),
+            'reordering compared by solver equality; second-order central '
+            'moments as rational identities (cross-multiplied, vf/ratnf.py); '
+            'concrete shape family: one 36x44 scene (rotated ellipses, '
+            '1-pixel-wide line, single pixel, block) x mask {none, through, '
+            'fully masked source} x NaN x negative pixels x convolved data: '
+            '17 shape columns against their textbook definitions'),
     assumptions=['floats as NaN-extended reals, no +-inf',
                  'moments use the (convolved) data with negative pixels set '
                  'to 0 as documented in _moment_data_cutouts'],
     stubs=['numpy facade'],
-    outside=['covariance / ellipse parameters (Quantity refuses symbolic '
-             'arrays), orientation, eccentricity, fwhm, kron_*, '
-             'fluxfrac_radius, gini, perimeter, centroid_win/quad',
+    outside=['covariance / ellipse parameters for symbolic data (LAPACK '
+             'eigenvalues, arctan2, Quantity): decided on the concrete shape '
+             'family only; kron_*, fluxfrac_radius, gini, perimeter, '
+             'centroid_win/quad',
              'local background value itself (only the relation '
              'segment_flux + area*local_background = sum(data) is checked, '
              'on concrete scenes)'],
@@ -68,7 +79,8 @@ def _props(cat, minmax=True):
               'minval_yindex', 'maxval_xindex', 'maxval_yindex',
               'bbox_xmin', 'bbox_xmax', 'bbox_ymin', 'bbox_ymax',
               'xcentroid', 'ycentroid', 'background_sum',
-              'background_mean', 'moments', 'cutout_centroid'):
+              'background_mean', 'moments', 'cutout_centroid',
+              'moments_central'):
         if not minmax and p.startswith(('minval_', 'maxval_')):
             continue
         v = getattr(cat, p)
@@ -242,6 +254,35 @@ def _run(case):
                        term(cc[1]) * term(mk_[0, 0]) == term(mk_[1, 0]),
                        term(xc) - term(cc[0]) == int(x0),
                        term(yc) - term(cc[1]) == int(y0))))
+            # second-order central moments about the centroid (rational
+            # identities in the pixel values; the zeroing of negative pixels
+            # was decided on this path, so the cached decisions are reused)
+            if M00 is not None and not case.get('nocentral'):
+                from ..ratnf import NotRational, cross
+                mc_ = got['moments_central'] if np.ndim(
+                    got['moments_central']) == 3 else [got['moments_central']]
+                vv = [(0 if bool(mom_src[p] < 0) else term(mom_src[p]))
+                      for p in Gm]
+                tot = sum(vv, z3.RealVal(0))
+                if not z3.is_false(z3.simplify(tot == 0)) and \
+                        not bool(SymReal(tot) == 0):
+                    xb = sum(((x - x0) * v for (y, x), v in zip(Gm, vv)),
+                             z3.RealVal(0)) / tot
+                    yb = sum(((y - y0) * v for (y, x), v in zip(Gm, vv)),
+                             z3.RealVal(0)) / tot
+                    for (i, j) in ((0, 2), (2, 0), (1, 1), (0, 0)):
+                        want = sum((((y - y0) - yb) ** i * ((x - x0) - xb) ** j
+                                    * v if (i or j) else v
+                                    for (y, x), v in zip(Gm, vv)),
+                                   z3.RealVal(0))
+                        if twin == 'drop' and (i, j) == (1, 1):
+                            want = want + 1
+                        try:
+                            add('moments_central', cross(
+                                term(mc_[k][i, j]), want) == 0)
+                        except NotRational:
+                            add('moments_central',
+                                term(mc_[k][i, j]) == want)
         cnt['n'] += 1
         for site, cl in groups.items():
             r, m = ctx.holds(z3.And(cl), site)
@@ -389,9 +430,152 @@ def _run_localbkg(case):
     return dict(stats=st, findings=f, samples=samples, nontrivial=cnt['n'])
 
 
+SHAPE_COLS = ('covar_sigx2', 'covar_sigy2', 'covar_sigxy', 'semimajor_sigma',
+              'semiminor_sigma', 'orientation', 'eccentricity', 'elongation',
+              'ellipticity', 'fwhm', 'cxx', 'cyy', 'cxy',
+              'equivalent_radius', 'xcentroid', 'ycentroid', 'area')
+
+
+def _shape_scene(scen):
+    from astropy.modeling.models import Gaussian2D
+    from scipy import ndimage
+    yy, xx = np.mgrid[:36, :44]
+    img = (Gaussian2D(50, 10.3, 9.6, 3.1, 1.3, theta=0.6)(xx, yy)
+           + Gaussian2D(30, 31.2, 24.4, 1.6, 2.9, theta=-0.3)(xx, yy))
+    img[30, 4:15] += 9.0            # one-pixel-wide line (the 1/12 rule)
+    img[3, 38] += 25.0              # single-pixel source
+    img[20:23, 6:8] += 7.0          # small block
+    segarr, n = ndimage.label(img > 2.0)
+    segarr = segarr.astype(int) * 3 + 1          # non-consecutive labels
+    segarr[segarr == 1] = 0
+    img = img - 0.2                               # some negative background
+    if scen['neg']:
+        img[10, 9] = -4.0
+        img[30, 8] = -1.0
+    mask = None
+    if scen['mask'] == 'through':
+        mask = np.zeros(img.shape, bool)
+        mask[9, 5:16] = True
+        mask[24, 30:33] = True
+    elif scen['mask'] == 'single':
+        mask = np.zeros(img.shape, bool)
+        mask[3, 38] = True          # the single-pixel source is all masked
+    if scen['nan']:
+        img[25, 31] = np.nan
+        img[30, 10] = np.nan
+    conv = None
+    if scen['conv']:
+        conv = ndimage.uniform_filter(np.nan_to_num(img), 3)
+    return img, segarr, mask, conv
+
+
+def _shape_oracle(src, data, segarr, mask, lab):
+    ys, xs = np.nonzero(segarr == lab)
+    good = np.isfinite(data[ys, xs]) & np.isfinite(src[ys, xs])
+    if mask is not None:
+        good &= ~mask[ys, xs]
+    area = float((np.isfinite(data[ys, xs]) & (
+        ~mask[ys, xs] if mask is not None else True)).sum())
+    out = dict(area=area if area else np.nan,
+               equivalent_radius=np.sqrt(area / np.pi) if area else np.nan)
+    v = np.where(good, np.maximum(np.where(good, src[ys, xs], 0.0), 0), 0.0)
+    nanall = dict.fromkeys(SHAPE_COLS, np.nan)
+    if not area or v.sum() == 0:
+        nanall.update(out) if area else None
+        return nanall
+    m00 = v.sum()
+    xb, yb = (xs * v).sum() / m00, (ys * v).sum() / m00
+    sxx = ((xs - xb) ** 2 * v).sum() / m00
+    syy = ((ys - yb) ** 2 * v).sum() / m00
+    sxy = ((xs - xb) * (ys - yb) * v).sum() / m00
+    det = sxx * syy - sxy ** 2
+    if det < 0:
+        return nanall
+    while det < (1 / 12) ** 2:
+        sxx += 1 / 12
+        syy += 1 / 12
+        det = sxx * syy - sxy ** 2
+    tr = sxx + syy
+    disc = np.sqrt(max(tr * tr - 4 * det, 0.0))
+    l1, l2 = (tr + disc) / 2, (tr - disc) / 2
+    a, b = np.sqrt(l1), np.sqrt(l2)
+    th = 0.5 * np.arctan2(2 * sxy, sxx - syy)
+    out.update(xcentroid=xb, ycentroid=yb, covar_sigx2=sxx, covar_sigy2=syy,
+               covar_sigxy=sxy, semimajor_sigma=a, semiminor_sigma=b,
+               orientation=np.degrees(th),
+               eccentricity=np.sqrt(1 - l2 / l1), elongation=a / b,
+               ellipticity=1 - b / a,
+               fwhm=2 * np.sqrt(np.log(2) * (l1 + l2)),
+               cxx=(np.cos(th) / a) ** 2 + (np.sin(th) / b) ** 2,
+               cyy=(np.sin(th) / a) ** 2 + (np.cos(th) / b) ** 2,
+               cxy=2 * np.cos(th) * np.sin(th) * (1 / l1 - 1 / l2))
+    return out
+
+
+def _shape_check(scen):
+    from photutils.segmentation import SegmentationImage, SourceCatalog
+    img, segarr, mask, conv = _shape_scene(scen)
+    with warnings.catch_warnings():
+        warnings.simplefilter('ignore')
+        cat = SourceCatalog(img, SegmentationImage(segarr), mask=mask,
+                            convolved_data=conv, progress_bar=False)
+        got = {c: np.asarray(getattr(getattr(cat, c), 'value',
+                                     getattr(cat, c)), float)
+               for c in SHAPE_COLS}
+    src = conv if conv is not None else img
+    for k, lab in enumerate(cat.labels):
+        exp = _shape_oracle(src, img, segarr, mask, lab)
+        for c in SHAPE_COLS:
+            g, e = got[c][k], exp[c]
+            if scen.get('twin') and c == 'cxy' and np.isfinite(e):
+                e = -e
+            if np.isnan(e) and np.isnan(g):
+                continue
+            if c == 'orientation' and np.isfinite(g) and np.isfinite(e):
+                # undefined for a round source; defined modulo 180 degrees
+                if abs(exp['elongation'] - 1) < 1e-9:
+                    continue
+                dlt = abs((g - e + 90) % 180 - 90)
+                if dlt > 1e-6:
+                    return (f'label {lab} orientation: catalog {g}, '
+                            f'definition {e}')
+                continue
+            if not np.isclose(g, e, rtol=1e-8, atol=1e-10):
+                return f'label {lab} {c}: catalog {g}, definition {e}'
+    return None
+
+
+def _run_shape(case):
+    cnt = dict(n=0)
+    samples = []
+
+    def fn(ctx):
+        scen = dict(mask=ctx.choice('mask', ['none', 'through', 'single']),
+                    nan=ctx.flag('nan'), neg=ctx.flag('neg'),
+                    conv=ctx.flag('conv'))
+        if case.get('twin'):
+            scen['twin'] = True
+        ctx.stats.obligations += 1
+        cnt['n'] += 1
+        msg = _shape_check(scen)
+        if msg is None:
+            ctx.stats.unsat += 1
+        else:
+            ctx.stats.sat += 1
+            ctx.find('catalog:shape', f'{scen}: {msg}', ctx.witness(),
+                     params=dict(kind='shape', scen=scen))
+        if len(samples) < 2:
+            samples.append(scen)
+
+    _, st, f = explore(fn)
+    return dict(stats=st, findings=f, samples=samples, nontrivial=cnt['n'])
+
+
 def run_case(case):
     if case.get('kind') == 'localbkg':
         return _run_localbkg(case)
+    if case.get('kind') == 'shape':
+        return _run_shape(case)
     return _run(case)
 
 
@@ -418,6 +602,8 @@ def cases(tier, seed):
     add('single-edge', False, nan=True, detcat=True, negmax=0)
     add('wide', True, nan=False, detcat=True, negmax=0)
     cs.append(dict(name='catalog-localbkg-differential', kind='localbkg'))
+    cs.append(dict(name='catalog-shape-definitions', kind='shape'))
+    cs.append(dict(name='catalog-shape-twin', kind='shape', twin=True))
     add('touching', True, nan=False, twin='nomask', negmax=0)
     add('touching', False, nan=False, twin='drop', negmax=0)
     if tier == 'thorough':
@@ -439,6 +625,9 @@ def replay(f):
     w = f['witness']
     if p.get('kind') == 'localbkg':
         msg = _localbkg_check(p['scen'])
+        return msg is not None, str(msg)
+    if p.get('kind') == 'shape':
+        msg = _shape_check(p['scen'])
         return msg is not None, str(msg)
     segarr = SEGMS[p['segm']]
     H, W = segarr.shape
@@ -514,6 +703,8 @@ def replay(f):
                                        zip(Gm, vm)) / vm.sum()
                 exp['ycentroid'] = sum(y * q for (y, x), q in
                                        zip(Gm, vm)) / vm.sum()
+            else:
+                exp['xcentroid'] = exp['ycentroid'] = np.nan
         else:
             for q in ('segment_flux', 'area', 'min_value', 'max_value',
                       'xcentroid', 'ycentroid'):
@@ -524,4 +715,6 @@ def replay(f):
                 bad = True
                 msgs.append(f'label {lab} {q}: got {gv} expected {x}')
     return bad, f'data={d.tolist()} mask=' \
-        f'{None if mask is None else mask.tolist()} ' + '; '.join(msgs)
+        f'{None if mask is None else mask.tolist()} ' + (
+            f'convolved/detection={c.tolist()} ' if (p['conv'] or p['detcat'])
+            else '') + '; '.join(msgs)
